@@ -1679,7 +1679,7 @@ def filter_none_cases(run, snaps):
     """One type at KEEP_NONE (the others at their defaults or, for the types that create objects of that type implicitly,
     kept): Groups come from NUMA distances, memory-side parents, I/O locality, s390 books, KNL clusters; Dies and clusters
     from sysfs; caches from sysfs/cpuid; MemCaches from sysfs.  wf_check's filtered-type-present clause judges.
-    quick: 4 types per snapshot, rotating with the seed; thorough: every type on every snapshot."""
+    every tier: Group NONE and all-types NONE on every snapshot; quick: 3 more types per snapshot, rotating with the seed; thorough: every type on every snapshot."""
     quick = run.tier == "quick"
     cases = []
     for si, snap in enumerate(snaps):
@@ -1687,9 +1687,11 @@ def filter_none_cases(run, snaps):
         env = dict(env)
         env["_light"] = "1"
         env["_noheap"] = "1"
-        types = NONE_TYPES if not quick else [NONE_TYPES[(run.seed + si + 3 * k) % len(NONE_TYPES)] for k in range(4)]
-        if 13 not in types and quick and (si + run.seed) % 2 == 0:
-            types = types[:3] + [13]
+        # on EVERY snapshot, every tier: Group KEEP_NONE alone and every type KEEP_NONE (with and without INCLUDE_DISALLOWED):
+        # the combinations that decide where memory objects may be attached (never below a PU)
+        for fs, fl in ((["filter 13 1"], 0), (["filter all 1"], 0), (["filter all 1"], 1), (["filter 13 1", "filter 3 1", "filter cache 1"], 0)):
+            cases.append(("filter-none", (snap, comps, env, list(fs), fl, [])))
+        types = NONE_TYPES if not quick else [NONE_TYPES[(run.seed + si + 3 * k) % len(NONE_TYPES)] for k in range(3)]
         for ty in sorted(set(types)):
             fs = ["filter %d 1" % ty]
             if ty == 13:
